@@ -92,6 +92,7 @@ def run(chk: Check) -> None:
     run_replaced_args_lose_nothing(chk, ix)
     run_exported_names_are_not_private(chk, ix)
     run_init_file_test_for_relative_imports(chk, ix)
+    run_replacement_names_are_imported(chk, ix)
 
 
 def run_pending_decorators_cleared(chk: Check, ix) -> None:
@@ -299,3 +300,24 @@ def run_init_file_test_for_relative_imports(chk: Check, ix) -> None:
                     r8.violation(key, f.loc(c), f"`{t[:80]}` does not ask the base name of the file: for pkg/__init__.py the relative import is resolved one level too high, so names imported from the package's own submodules are not re-exported in the stub")
     if n < 1:
         raise AnalysisError("stubgen: no call of correct_relative_import with an init-file argument found")
+
+
+def run_replacement_names_are_imported(chk: Check, ix) -> None:
+    """R19.9: a name the printers put into the stub in place of a typing alias is imported whenever it needs an import."""
+    r9 = chk.rule("R19.9", "the stub printers replace `typing.List` etc. by the builtin (`TYPING_BUILTIN_REPLACEMENTS`) through BaseStubGenerator.add_name(), which returns an alias (`_list`, imported `from builtins import list as _list`) when the module defines the plain name itself. The returned text goes straight into the stub, so every such call leaves `require` at its default or passes True: with require=False the import is registered but never emitted and the stub uses an undefined name", floor=2)
+    n = 0
+    for mn in ("mypy.stubgen", "mypy.stubutil"):
+        m = ix.module(mn)
+        for f in list(m.functions.values()) + [mm for c in m.classes.values() for mm in c.methods.values()]:
+            for c in ast.walk(f.node):
+                if not (isinstance(c, ast.Call) and call_name(c) == "add_name" and c.args and "TYPING_BUILTIN_REPLACEMENTS" in norm(c.args[0])):
+                    continue
+                n += 1
+                req = next((k.value for k in c.keywords if k.arg == "require"), c.args[1] if len(c.args) > 1 else None)
+                key = f"{mn.removeprefix('mypy.')}.{f.qualname.split('.')[-2] if '.' in f.qualname else ''}.{f.name}: the builtin replacement is imported when it needs an alias"
+                if req is None or (isinstance(req, ast.Constant) and req.value is True):
+                    r9.ok(key, f.loc(c))
+                else:
+                    r9.violation(key, f.loc(c), f"`{norm(c)[:80]}`: with `def list(): ...` in the module the replacement is spelled `_list` and nothing requires `from builtins import list as _list`: the stub line `Alias = _list[int]` refers to an undefined name")
+    if n < 2:
+        raise AnalysisError(f"stubgen/stubutil: only {n} add_name(TYPING_BUILTIN_REPLACEMENTS[...]) calls found")
